@@ -773,7 +773,8 @@ def s_cnf(ev, G): return SV(BOOL, cnf_b(G.z))
 
 # ====================================================================== word-level readings of DFA constructions (C14)
 axiom('dfax', 'lemma', 'dhat-app', ForAll([_d, _q, _u, _v], dhat(_d, _q, app(_u, _v)) == dhat(_d, dhat(_d, _q, _u), _v)))
-axiom('dfax', 'lemma', 'Reach1-of-word', ForAll([_d, _S, _q, _v], Implies(And(_v != Word.nil, over(_S, _v)), Select(Reach1(_d, _S, _q), dhat(_d, _q, _v)))))
+axiom('dfax', 'lemma', 'Reach1-of-word', ForAll([_d, _S, _q, _v], Implies(And(_v != Word.nil, over(_S, _v)), Select(Reach1(_d, _S, _q), dhat(_d, _q, _v))),
+                                               patterns=[Select(Reach1(_d, _S, _q), dhat(_d, _q, _v)), z3.MultiPattern(Reach1(_d, _S, _q), dhat(_d, _q, _v), over(_S, _v))]))
 r1word = Function('r1word', DeltaD, SetA, Atom, Atom, Word)       # a chosen non-empty word leading from q to a state of Reach1(q)
 axiom('dfax', 'lemma', 'Reach1-has-word', ForAll([_d, _S, _q, _x], Implies(Select(Reach1(_d, _S, _q), _x),
       Exists([_v], And(_v != Word.nil, over(_S, _v), dhat(_d, _q, _v) == _x)))))
